@@ -21,11 +21,14 @@ def preamble(run, module, theorems):
 
 def regen_imp(run):
     """GenImp.v: the imperative run-time library code (utils.rs overlap check, InstantiateBuilder) translated into the
-    deep-embedded language of Model/Imp.v"""
-    try:
-        imp_translate.write(imp_translate.generate())
-    except translate.TranslateError as e:
-        run.translator_error("translation of the run-time library source (GenImp): " + str(e))
+    deep-embedded language of Model/Imp.v. Returns the list of parts that could not be translated (they are emitted
+    as empty programs; the theorems about the translated source then do not build and are reported as not
+    established - see Run.prove(strengthening=True))."""
+    text, errors = imp_translate.generate()
+    imp_translate.write(text)
+    for e in errors:
+        run.notes.append("translated-source tie: %s" % e)
+    return errors
 
 
 LIB_HEADER = ("From Coq Require Import String List ZArith.\nImport ListNotations.\n"
